@@ -127,10 +127,10 @@ def print_assumptions(prop_id):
             in_ax = True
             continue
         if in_ax:
-            m = re.match(r'^([A-Za-z_][\w\.\']*)\s*:', line)
-            if m:
+            m = re.match(r'^([A-Za-z_][\w\.\']*)\s*(:|$)', line)
+            if m and not line.startswith('Closed'):
                 axioms.add(m.group(1))
-            elif line.strip() == '' or line.startswith('Closed'):
+            elif line.startswith('Closed') or (line and not line[0].isspace() and not m):
                 in_ax = False
     return rc == 0, n_thm, thm_names, closed, sorted(axioms), out
 
@@ -275,6 +275,10 @@ def main(argv):
     os.makedirs(os.path.join(BUILD, pid), exist_ok=True)
     os.makedirs(EVID, exist_ok=True)
 
+    if not args.replay and os.path.isdir(REPLAYS):
+        for f in os.listdir(REPLAYS):
+            if f.startswith(pid + '-'):
+                os.remove(os.path.join(REPLAYS, f))
     violations = []      # (kind, clause, payload)
     known_hits = {}
     notes = []
